@@ -419,7 +419,12 @@ func (st *State) srcCells(src Value) ([]Value, *Term) {
 
 func (ex *Exec) appendOp(st *State, s SliceV, src Value, elem types.Type) Value {
 	c := ex.Ctx
+	s = st.simpSlice(s)
+	if sv, ok := src.(SliceV); ok {
+		src = st.simpSlice(sv)
+	}
 	add, addLen := st.srcCells(src)
+	addLen = st.simp(addLen)
 	if addLen.IsConst() && addLen.V == 0 {
 		return s
 	}
@@ -570,7 +575,12 @@ func (st *State) iteValue(cond *Term, a, b Value) Value {
 
 func (ex *Exec) copyOp(st *State, dst SliceV, src Value) Value {
 	c := ex.Ctx
+	dst = st.simpSlice(dst)
+	if sv, ok := src.(SliceV); ok {
+		src = st.simpSlice(sv)
+	}
 	vals, srcLen := st.srcCells(src)
+	srcLen = st.simp(srcLen)
 	if dst.Obj == 0 {
 		return ex.i64(0)
 	}
